@@ -279,6 +279,17 @@ impl Ranges {
         };
 
         ranges.deserialize_inner(seq, parsed_value_seed)?;
+
+        // only a type and no ranges, e.g. `["i32"]`
+        let mut is_empty = true;
+        let _ = ranges.try_for_each_value::<_, ()>(|_| {
+            is_empty = false;
+            Ok(())
+        });
+        if is_empty {
+            return Err(serde::de::Error::custom(Error::EmptyRange));
+        }
+
         Ok(ranges)
     }
 
